@@ -2,9 +2,9 @@ package core
 
 import (
 	"fmt"
-	"os"
 	"go/token"
 	"go/types"
+	"os"
 
 	"golang.org/x/tools/go/ssa"
 )
@@ -79,6 +79,21 @@ func (t *TaintSpec) taintedLeaves(v ssa.Value) []ssa.Value {
 				typ, f := FieldAddrName(fa)
 				if t.SourceField != nil && t.SourceField(typ, f) {
 					out = append(out, v)
+				}
+				// a cursor field updated in this function with an untrusted amount
+				// (r.pos += l ... buf[p:r.pos]): flow-insensitive within the function
+				if fn := x.Parent(); fn != nil && inner == ssa.Value(fa) {
+					Instrs(fn, func(in ssa.Instruction) {
+						st, ok := in.(*ssa.Store)
+						if !ok {
+							return
+						}
+						fa2, ok := st.Addr.(*ssa.FieldAddr)
+						if !ok || fa2.Field != fa.Field || !Same(fa2.X, fa.X) {
+							return
+						}
+						walk(st.Val, d+1)
+					})
 				}
 			}
 		}
@@ -168,7 +183,7 @@ func atomUpperBounded(leaf ssa.Value, sawUnsigned *bool) *Atom {
 	}}
 }
 
-// derivesFrom: v is a monotone arithmetic expression of leaf with constants (l+k, l*k, l/k, int(l)).
+// derivesFrom: v is a monotone, non-wrapping arithmetic expression of leaf with constants (l-k, l/k, int(l)).
 func derivesFrom(v, leaf ssa.Value) bool {
 	for i := 0; i < 6; i++ {
 		v = StripConv(v)
@@ -179,8 +194,11 @@ func derivesFrom(v, leaf ssa.Value) bool {
 		if !ok {
 			return false
 		}
+		// Only operations that cannot wrap for a non-negative operand: l-k, l/k. A test of
+		// the form l+x > bound proves nothing for an unbounded l (the sum wraps to a
+		// negative number and passes), nor does l*k.
 		switch b.Op {
-		case token.ADD, token.SUB, token.MUL, token.QUO:
+		case token.SUB, token.QUO:
 		default:
 			return false
 		}
@@ -188,15 +206,15 @@ func derivesFrom(v, leaf ssa.Value) bool {
 			v = b.X
 			continue
 		}
-		if StripConv(b.Y) == leaf || derivesFrom(b.Y, leaf) {
-			return true
-		}
-		v = b.X
+		return false
 	}
 	return false
 }
 
 // atomNonNegative: "v >= 0" on the signed value actually used.
+// AtomNonNegative: v >= 0 (on exactly this signed value).
+func AtomNonNegative(v ssa.Value) *Atom { return atomNonNegative(v) }
+
 func atomNonNegative(v ssa.Value) *Atom {
 	return &Atom{Name: "value>=0", Match: func(cond ssa.Value) (int, int) {
 		op, x, y, ok := Cmp(cond)
